@@ -701,7 +701,10 @@ def run(chk: lib.Check):
     att, txt = [p_ for p_ in places_long if p_ != "text"], "text"
     plain = [p_ for p_ in att if p_ != "desc"]
     for i, pl in enumerate(([plain[0], "desc", txt] if quick else places_long * 2)):
-        xplan.append((big[0] if pl == "text" else wt, [("long", f"{pl}:{10_000_000 + rng.randrange(1, 900_000)}:{alph[rng.randrange(len(alph))]}")]))
+        al = alph[rng.randrange(len(alph))]
+        if pl == "desc" and ("<" in al or "&" in al):
+            al = "ab c"                 # an HTML attribute: markup-free text, which the HTML repair has to hand back unchanged
+        xplan.append((big[0] if pl == "text" else wt, [("long", f"{pl}:{10_000_000 + rng.randrange(1, 900_000)}:{al}")]))
     if not quick:
         xplan.append((wt, [("long", f"pv:{rng.randrange(30_000_000, 50_000_000)}:x")]))
     dplan += xplan
